@@ -54,7 +54,7 @@ CLAIMS = {
    design="3.C04", technique=T + "; call-site preconditions on the single reply writer"),
  "C11": dict(
    text="Deductive proof of the flow and refusal halves: at the real Session.Mail / Session.Rcpt call sites the mailbox is the value returned by the path parser for this line (and the parser and the parameter splitter reported no error), the options object is new, and every option field equals the decoded value of the parameter present on the line or is zero when the parameter is absent (SIZE, SMTPUTF8, REQUIRETLS, BODY, RET, ENVID, AUTH presence, NOTIFY element by element, ORCPT type and address, RRVS time), only known parameters were present, each present parameter was well-formed (SIZE numeric, BODY/RET from the fixed sets, ENVID/ORCPT xtext decodable and printable, NOTIFY from the four keywords, none twice, NEVER alone) - loop invariants over the Go map iteration (visited-set ghost), checked for every path through the parameter switches; refusals are 5xx (4xx only for the recipient limit) with unchanged callback counters (shared with C03); parameters of disabled extensions are refused (shared with C12). decodeTypedAddress and checkNotifySet are proved against specifications written from RFC 3461 4.1/4.2.",
-   note=COMMON_NOTE + "NOT decided by this check (so a change there is not noticed): agreement of the hand-written path parser (parsePath / parseMailbox / parseLocalPart), of parseArgs and of the regexp-driven decoders decodeXtext / decodeUTF8AddrXtext with the RFC grammars - they are treated as functions of their argument (the parser functions are under the no-panic sweep only); the value of AUTH=<mailbox> other than <>; time.Parse as RFC 3339 reference. The property's quantifier (grammar-derived lines against a reference grammar) is therefore only half covered.",
+   note=COMMON_NOTE + "BOUNDED stand-ins, labelled bounded in the evidence and never counted among the proved obligations (the functions are out of the verifier's reach: regexp engine; no inductive spec of the RFC 5321 grammar was written): (1) the real MAIL/RCPT handlers on every string of length <= 7 (thorough: 8) over 13 syntactically significant characters against a reference Path grammar written from RFC 5321 4.1.2 (valid / definitely invalid / unspecified, one obligation per kind of disagreement; 8 open known findings: leniency about dots, hyphens and the source route); (2) decodeXtext / decodeUTF8AddrXtext against reference decoders from RFC 3461 / 6533 on all strings of <= 5 symbols. NOT decided at all: parseArgs against the esmtp-param grammar, the value of AUTH=<mailbox> other than <>, time.Parse as RFC 3339 reference, anything beyond the stated bounds.",
    design="3.C11", technique=T + "; loop invariants over map iteration with a visited-set ghost"),
  "C20": dict(
    text="(a) Ownership obligations, one per access, discharged by the generator's must-hold lockset dataflow over go/ssa (not SMT): Server.listeners/conns only under Server.locker, Conn.closed only under Conn.locker, and the transaction fields dataResult, bdatStatus, recipients, fromReceived, bytesReceived, errCount, binarymime, didAuth, text, lineLimitReader touched only by code that is not reachable from any goroutine other than the command loop (closures started with go, Server.Close, Server.Shutdown are the other thread roots) - a sufficient condition for the absence of data races on those fields. (b) Deductive proof of the sequential kernel: a second Close/Shutdown returns ErrServerClosed, the first one closes the done channel, Close closes every registered connection whatever the listeners return (loop invariant over the map iteration), Serve never returns a temporary Accept error and its back-off stays within [0, 1s] (so no overflow after any run of temporary errors); the BDAT/LMTP delivery goroutines use the values captured at start (call-site and receive-site obligations shared with C04/C13).",
@@ -70,7 +70,7 @@ CLAIMS = {
    design="3.C13", technique=T),
  "C14": dict(
    text="Deductive proof of the encoder kernel: encodeXtext / encodeUTF8AddrXtext / encodeUTF8AddrUnitext emit, per input rune, the RFC 3461 / RFC 6533 form required by the statement (xchar/QCHAR sent as is; every other 7-bit octet escaped: '+' and exactly two hex digits, resp. a \\x{...} form), their output is a single ESMTP value token without CR/LF (loop invariants over a ghost strings.Builder content and character-class predicates), the client hands ENVID to the xtext encoder only inside its 7-bit printable domain and renders each option under the right keyword only if negotiated (shared with C15); server side: the decoded values flow unchanged into the options object (C11 flow).",
-   note=COMMON_NOTE + "Assumed: strings.Builder, strconv.FormatInt, strings.ToUpper, time.Format stubs. NOT covered in this revision (so not decided by this check): the inverse lemmas decoder(encoder(x)) = x, the regexp-driven decoders decodeXtext / decodeUTF8AddrXtext (trusted stubs; the planned bounded stand-in was not built), RRVS to-the-second round trip.",
+   note=COMMON_NOTE + "Assumed: strings.Builder, strconv.FormatInt, strings.ToUpper, time.Format stubs. BOUNDED stand-ins (labelled bounded, never counted as proved; the decoders are regexp-driven): decoder(encoder(x)) = x for xtext on every printable 7-bit octet and all strings of length <= 4 over 15 significant characters, for utf-8-addr-xtext and -unitext on every Unicode scalar value of the domain and all strings of length <= 3 over 18 characters, and the RRVS time to the second on 1.7 million timestamps in three zones. Beyond those bounds the inverse property is not decided.",
    design="3.C14", technique=T + "; per-rune loop obligations over a ghost builder"),
  "C15": dict(
    text="Deductive proof: textproto.Conn.Cmd stub requires the formatted line to be free of CR/LF and is called only from Client.cmd, whose own precondition is checked at every call site with the format expanded (constant formats, arguments built from validateLine'd values, proved-token-safe encoder outputs, checkNotifySet'ed keywords, switch-checked literals); every method ensures nothing written when an argument cannot be sent on one line (validateLine precedes the implicit EHLO), at most the greeting step plus one line otherwise; parameters are rendered only under has(ext, extension) with ext from the latest EHLO; a requested REQUIRETLS / SMTPUTF8 that is not offered is a local error with no MAIL line.",
@@ -86,7 +86,7 @@ CLAIMS = {
    design="3.C18", technique=T),
  "C17": dict(
    text="Deductive proof on writeResponse/writeError against a format-record abstraction of PrintfLine: the reply code on the wire is the code given (the SMTPError's own code, else the call site's generic code), a set enhanced code is written verbatim, an unset one as class.0.0 for classes 2/4/5, absent only if explicitly absent. Every line of a multi-line reply is written in one of four forms, carries the reply code and - unless the code is explicitly absent - the same enhanced code (RFC 2034; proved after fix fd23e50, which the go-smtp client needs to return an equal SMTPError).",
-   note=COMMON_NOTE + "Assumed: PrintfLine writes exactly the formatted line. Not covered in this revision: the client half (toSMTPErr / ReadResponse as inverse, bounded stand-in planned), message text equality line by line.",
+   note=COMMON_NOTE + "Assumed: PrintfLine writes exactly the formatted line. BOUNDED stand-in for the client half (labelled bounded, never counted as proved; textproto and string splitting do the parsing): the reply the real writeError puts on the wire comes back through textproto.ReadResponse + toSMTPErr as an equal SMTPError for 7 codes x 5 enhanced codes x all messages of length <= 5 over {a,5,.,-,space,%,LF} with non-empty untrimmed lines.",
    design="3.C17", technique=T),
  "C19": dict(
    text="Deductive proof: lineLimitReader.Read tracks the run length written from the property text (loop invariant), refusal only if a run exceeds the limit, delivered data only with all runs within the limit, sticky refusal; readLine requires the limit to be active at every call site (command loop invariant, AUTH continuation); protocolError counts and gives up after more than three errors; zero-annotation safety sweep (bounds, nil, type assertion, nil map, explicit panic, overflow) over the functions under contract reachable from handleConn.",
